@@ -336,6 +336,12 @@ def run_case(ctx, name, params):
                         import time as _t
                         from .. import sqlproxy
                         held = threading.Event()
+                        if r.random() < 0.5:
+                            try:
+                                p.options["time_out"] = r.choice([0.001, 0.05])      # an option of another subsystem, at the edge of its range
+                                ctx.count("contended_syncs_with_a_tiny_time_out_option")
+                            except Exception:
+                                pass
                         hold_s = r.choice([0.08, 0.13, 0.35, 0.7])      # 1 .. ~10 busy time-outs: the write has to be retried again and again
 
                         def hold():
@@ -376,6 +382,31 @@ def run_case(ctx, name, params):
                         model[ind.id] = snapshot(ind)
                     ops.append(("sync_all",))
                 ctx.count("store_operations")
+                if r.random() < 0.05 and model and ts:
+                    # a second writer on the SAME file while this store stays alive (a post-processing script, a second session): it
+                    # loads the recorded individuals, changes some and synchronises; then this store synchronises its own, unchanged
+                    # individuals again -- the file holds what was synchronised last, whoever wrote in between
+                    pB = hooks.make_problem(n=n, m=m, params=[dict(q) for q in p.parameters], criteria=[c.get("criteria", "minimize") for c in p.costs], name=p.name)
+                    try:
+                        sB = SqliteDataStore(pB, database_name=path, mode="write", thread_safe=True)
+                        pB.data_store = sB
+                        for ib in pB.individuals:
+                            if r.random() < 0.7:
+                                ib.custom = {"edited_by": "second writer", "k": r.randint(0, 9)}
+                                ib.population_id = 77
+                        sB.sync_all()
+                        sB.destroy()
+                        store.sync_all()
+                    except Exception as e:
+                        ctx.violation("sync/exception", "synchronising with a second writer on the same file raised %r" % e, wit())
+                        return
+                    for ind in p.individuals:
+                        model[ind.id] = snapshot(ind)
+                    ops.append(("second_writer_then_sync_all",))
+                    ctx.count("sync_all_after_a_second_writer_changed_the_file")
+                    view = read_back(ctx, path, wit)
+                    if view is None or not compare(ctx, view, path, model, p, wit, "history"):
+                        return
                 if r.random() < 0.06 and model:
                     # the run is interrupted and continued: the file is reopened in write mode by a new problem object (which
                     # loads what is there), and synchronisation goes on with the same individuals
